@@ -82,7 +82,7 @@ public:
     const auto & y = static_cast<const _Derived &>(*this).coeffs().x();
 
     using std::atan2;
-    if (y <= 0.) {
+    if (y < 0. || (y == 0. && x > 0.)) {
       return atan2(y, x);
     } else {
       return atan2(-y, -x) - Scalar(M_PI);
@@ -98,7 +98,7 @@ public:
     const auto & y = static_cast<const _Derived &>(*this).coeffs().x();
 
     using std::atan2;
-    if (y >= 0.) {
+    if (y > 0. || (y == 0. && x > 0.)) {
       return atan2(y, x);
     } else {
       return Scalar(M_PI) + atan2(-y, -x);
